@@ -208,7 +208,19 @@ def _h(k, n, maxseg, ops, sched=1, policy="random"):
 
 A = bytes(range(65, 91))
 CORPUS = [
-    # stale node size: an update that extends the file followed by an update inside it (no download in between)
+    # --- one minimal history per known mechanism (seeded changes C09-a/b/c, the two repaired defects); 26-byte MDMF
+    #     file, 8-byte segments: segments [0,8) [8,16) [16,24) and the 2-byte tail [24,26)
+    # C09-a: the write ends exactly on a segment boundary before EOF (publisher must not push the next segment)
+    _h(2, 4, 8, [["create", "m", A.hex()], ["update", 4, b"wxyz".hex()], ["read", 0, None, "ver"]]),
+    _h(2, 4, 8, [["create", "m", A.hex()], ["update", 9, (b"w" * 15).hex()], ["read", 0, None, "ver"]], policy="fifo"),
+    # C09-b: the write starts before the tail segment and ends inside it, short of EOF (end segment must be fetched)
+    _h(2, 4, 8, [["create", "m", A.hex()], ["update", 20, b"vwxyz".hex()], ["read", 0, None, "ver"]]),
+    _h(2, 4, 8, [["create", "m", (A + A[:5]).hex()], ["update", 3, (b"v" * 24).hex()], ["read", 0, None, "dbv"]], policy="lifo"),
+    # C09-c: ranged reads that end in a non-final segment beyond the tail length / exactly on a segment boundary
+    _h(2, 4, 8, [["create", "m", A.hex()], ["read", 0, 5, "ver"], ["read", 1, 7, "ver"], ["read", 10, 12, "ver"],
+                 ["read", 6, 1, "ver"], ["read", 0, None, "ver"]]),
+    _h(3, 5, 8, [["create", "m", (A * 2)[:40].hex()], ["read", 4, 23, "ver"], ["read", 30, 6, "ver"]]),
+    # repaired b67174d (stale node size): an update that extends the file followed by an update inside it (no download in between)
     _h(2, 4, 8, [["create", "m", A[:10].hex()], ["update", 10, (b"x" * 20).hex()], ["update", 12, b"Y".hex()],
                  ["read", 0, None, "ver"]]),
     # stale node size after modify
@@ -216,7 +228,7 @@ CORPUS = [
                  ["read", 0, None, "ver"]]),
     _h(2, 4, 8, [["create", "m", A.hex()], ["update", 20, b"0123456789".hex()], ["update", 8, (b"z" * 8).hex()],
                  ["read", 0, None, "dbv"], ["update", 16, (b"z" * 9).hex()], ["read", 0, None, "ver"]]),
-    # SDMF update beyond EOF
+    # repaired 2a6f1c2: SDMF update beyond EOF
     _h(2, 4, 8, [["create", "s", A[:10].hex()], ["update", 15, b"YY".hex()], ["read", 0, None, "ver"],
                  ["read", 15, 2, "ver"]]),
     # MDMF beyond EOF (refused), append at exact boundary (refused), empty files (refused)
@@ -234,6 +246,35 @@ CORPUS = [
     _h(1, 3, 5, [["create", "m", A[:20].hex()], ["update", 19, b"12".hex()], ["update", 4, b"ab".hex()],
                  ["update", 5, (b"c" * 5).hex()], ["read", 0, None, "ver"], ["modify", "cut", 7], ["update", 7, (b"d" * 14).hex()],
                  ["read", 0, None, "ver"], ["read", 6, 0, "ver"], ["read", 30, None, "ver"], ["read", 2, 40, "ver"]]),
+]
+
+
+# function-level corpus (same mechanisms): Retrieve._decode_blocks for a ranged read whose last requested segment is
+# not the file's tail (C09-c); setup_encoding_parameters for a write ending on a segment boundary before EOF (C09-a);
+# _do_update_update for a write from an earlier segment into the tail segment short of EOF (C09-b)
+DEC_CORPUS = [
+    {"kind": "dec", "k": 2, "n": 4, "seg": 8, "content": A.hex(), "off": 0, "size": 5, "segnum": 0, "pick": 1},
+    {"kind": "dec", "k": 3, "n": 5, "seg": 9, "content": (A * 2)[:40].hex(), "off": 4, "size": 23, "segnum": 2, "pick": 2},
+    {"kind": "dec", "k": 2, "n": 3, "seg": 8, "content": A.hex(), "off": 20, "size": 6, "segnum": 3, "pick": 3},
+]
+ENC_CORPUS = [
+    {"kind": "enc", "k": 2, "maxseg": 8, "fmt": "m", "dl": 26, "off": 4, "up": 8},
+    {"kind": "enc", "k": 2, "maxseg": 8, "fmt": "m", "dl": 26, "off": 9, "up": 24},
+    {"kind": "enc", "k": 3, "maxseg": 8, "fmt": "m", "dl": 40, "off": 0, "up": 40},
+    {"kind": "enc", "k": 2, "maxseg": 8, "fmt": "s", "dl": 10, "off": 0, "up": 10},
+]
+RNG_CORPUS = [
+    {"kind": "rng", "seg": 8, "size": 26, "off": 20, "len": 5},
+    {"kind": "rng", "seg": 8, "size": 31, "off": 3, "len": 24},
+    {"kind": "rng", "seg": 8, "size": 26, "off": 4, "len": 4},
+    {"kind": "rng", "seg": 8, "size": 26, "off": 0, "len": 0},
+]
+TU_CORPUS = [
+    # old = A (26 bytes), seg 8: write [4,8) (one read), write [20,25) (two reads, `_end` = the tail segment)
+    {"kind": "tu", "seg": 8, "off": 4, "new": b"wxyz".hex(), "start": A[:8].hex(), "end": A[:8].hex(), "lens": [8],
+     "old": A.hex()},
+    {"kind": "tu", "seg": 8, "off": 20, "new": b"vwxyz".hex(), "start": A[16:24].hex(), "end": A[24:26].hex(),
+     "lens": [8, 2], "old": A.hex()},
 ]
 
 
@@ -657,14 +698,25 @@ def run(ctx):
         else:
             hists.append(c)
     else:
+        # fixed corpus first (independent of VERIF_SEED); VERIF_CORPUS_ONLY=1 stops here
+        corpus_only = os.environ.get("VERIF_CORPUS_ONLY") == "1"
+        if corpus_only:
+            ctx.note("VERIF_CORPUS_ONLY=1: fixed corpus only, random families skipped")
+
+        def budget(q, t):
+            return 0 if corpus_only else ctx.budget(q, t)
         hists = [dict(h) for h in CORPUS]
+        tus = [dict(c) for c in TU_CORPUS]
+        encs = [dict(c) for c in ENC_CORPUS]
+        rngs = [dict(c) for c in RNG_CORPUS]
+        decs = [dict(c) for c in DEC_CORPUS]
         thorough = ctx.tier == "thorough"
-        for i in range(ctx.budget(230, 2200)):
+        for i in range(budget(230, 2200)):
             mx = 8 if not thorough else rng.choice([8, 8, 20, 40])
             hists.append(gen_history(rng, mx))
-        for i in range(ctx.budget(1500, 30000)):
+        for i in range(budget(1500, 30000)):
             tus.append(tu_case(rng))
-        for i in range(ctx.budget(400, 6000)):
+        for i in range(budget(400, 6000)):
             k = rng.choice([1, 2, 3, 4])
             maxseg = rng.choice([1, 5, 6, 8, 16])
             f = rng.choice(["m", "m", "s"])
@@ -675,14 +727,14 @@ def run(ctx):
                 off = rng.randrange(0, dl + 1)
                 up = rng.randrange(off, dl + 1)
             encs.append({"kind": "enc", "k": k, "maxseg": maxseg, "fmt": f, "dl": dl, "off": off, "up": up})
-        for i in range(ctx.budget(400, 6000)):
+        for i in range(budget(400, 6000)):
             seg = rng.choice([1, 2, 3, 5, 8, 9, 16])
             size = rng.randrange(0, 70)
             off = rng.randrange(0, size + 3)
             rngs.append({"kind": "rng", "seg": seg, "size": size, "off": off,
                          "len": rng.choice([0, 0, 1, seg, max(0, size - off), rng.randrange(0, 40)])})
 
-        for i in range(ctx.budget(400, 6000)):
+        for i in range(budget(400, 6000)):
             decs.append(dec_case(rng))
 
     impl_h = [run_history(ctx, h) for h in hists]
